@@ -6,13 +6,13 @@ LEVEL_TEXT["C19"] = (
     "for EVERY engine, history and interleaved call sequence the values after rng(seed) are a function of seed and the calls alone "
     "(the only state surviving a call is the engine; normal_distribution's cached value lives for one call), randi inside its inclusive bounds "
     "given the uniform_int_distribution contract; _periodogram(c*x) = c^2*_periodogram(x) with no hypothesis, _harm_analyze equivariant under every "
-    "k > 0 (peak search, descents, argmax, positive-bin filter, sort inside median are order-only; sums, centroid, median floor scale) => "
+    "k > 0 (peak search, plateau walk by equality with the peak value, descents, argmax, positive-bin filter, sort inside median are order-only; sums, centroid, median floor scale) => "
     "snr, sinad, thd value and harmonic frequencies of c*x equal those of x for every c != 0, every signal, window, nharm, aliased. "
     "Tie: the deviation formulas of awgn (rms(arr)*pow(10,(-1)*snr/20), sqrt(0.5)*rms(arr)*pow(...)) are REGENERATED from lib/awgn.cpp's AST on every run "
     "(Gen/Awgn.lean) and the scale theorems are stated about these generated definitions; model vs implementation — awgn bit-exact with the drawn values as inputs; snr/sinad/thd(Psd) bit-exact on every spectrum over a 4-letter "
     "alphabet up to 5 (6) bins, random spectra with ties/zeros and real periodograms; _periodogram (public-API replica, tied bit-exactly to the internal "
     "one through thd(Time) == thd(replica, Psd)) vs the model's textbook DFT; rand/randn/randi/awgn streams bit-exact vs the model's "
-    "std::mt19937 + libstdc++-12 generate_canonical / normal (polar) / uniform_int (Lemire). "
+    "std::mt19937 + libstdc++-12 generate_canonical / normal (polar) / uniform_int (Lemire), incl. single calls of 2^16..2^20 values (digest) and the engine position after them. "
     "Measured only (long double oracle, the property's tolerances): noise level within 6 standard errors, zero mean, whiteness, re/im independence, "
     "Gaussian shape; thd within 0.1 dB, frequencies within 0.1 bin, sinad within 1.5 dB on the stated tone family; Float residue of the scale invariance."
 )
@@ -21,16 +21,28 @@ PROPS["C19"] = {
     "gen": ["Cmplx", "Awgn"],
     "lean_props": "DspVerif.Props.C19",
     "harness": [{"src": "c19.cpp", "cfg": "rel",
-                 "tol": {"awgnR": (0.0, 0.0), "awgnC": (0.0, 0.0), "stream": (0.0, 0.0), "harm": (1e-13, 0.0),
+                 "tol": {"awgnR": (0.0, 0.0), "awgnC": (0.0, 0.0), "stream": (0.0, 0.0), "streamD": (0.0, 0.0), "harm": (1e-13, 0.0),
                          "pgram": (1e-11, 0.0), "measT": (1e-9, 0.0)}}],
     "rule": "awgn: 80 (400 thorough) trials, real and complex alternating, length 10^4..10^5 (10^6), SNR -10..80 dB incl. both ends, amplitude 10^-3..10^3, "
             "tone / multitone / Gaussian / uniform / DC signals, 6-standard-error bounds on power (total and per component), mean, lags 1..8, re/im cross-correlation, "
-            "signal correlation, 8 s.e. on skewness/kurtosis; thd/sinad/snr: lengths 2048..2^17 (11 fixed lengths incl. 2049, 4095, 4097, 2500, 3000, 5000, 10000 + random + "
+            "signal correlation, 8 s.e. on skewness/kurtosis; in EVERY trial also the noise power of each sixteenth of the record (7 s.e., total and per component), "
+            "no sample returned unchanged, y == x + sigma*randn(n) bit for bit against a separate randn(n) after the same rng(seed); length classes k*2^16, k*2^17, k*2^18 (k = 1..4), "
+            "2^18-1, 2^18+1, 10^6, 999424, primes 46349 / 65537 / 999983, real and complex, once (3 times) each; amplitude classes 1e-100, 1e-17, 1e-8, 1e8, 1e100; "
+            "operands that are temporaries (copy, x*1.0, slice, range-for over the call), input unchanged; thd/sinad/snr: lengths 2048..2^17 (11 fixed lengths incl. 2049, 4095, 4097, 2500, 3000, 5000, 10000 + random + "
             "30000, 65536, 100000, 131071, 131072), 1..5 harmonics at -10..-40 dBc incl. both ends, random phases, amplitude 10^-2..10^2, off-bin / on-bin / coherent, "
             "plain and aliased harmonics, every component >= 100 bins from the others, DC and Nyquist; scale factor 10^-3..10^3 (|delta| <= 1e-9 dB) and 2^-20..2^20 (bit-exact), "
-            "with and without a noise floor; replay: seeds 0..100 (0..1000) + -1, INT_MAX, INT_MIN, programs of 3..14 interleaved calls over all 11 entry points, three runs "
+            "with and without a noise floor; scale classes 1e-100, 1e-17, 1e-8, 1e8, 1e100 in one of six trials; "
+            "the BOUNDARY of the tone family: one distance exactly d bins (d = 100, 100.5, 101, 128, 130, random real and random integer in [100,130]) in 7 constellations "
+            "(fundamental to DC in transform bins / in record bins, top harmonic to Nyquist in transform / record bins, three aliased constellations with harmonics d bins from the "
+            "fundamental, from DC, from Nyquist and from each other) at N = 2048, 4096, .., 2^17, 2049, 2500, 3000, 4095, 4097, 5000, 10000, 30000, 46349, 65537, 100000, 100001, 100003, "
+            "120000, 131071 (thorough: all 22 x 7 x 7; quick: 12 fixed representatives incl. N = 2^17 with the fundamental at 100, 100.5, random in [100.5,128], 128 bins and N = 120000 at "
+            "101 record bins, plus one constellation per length rotating with the seed); in one of four trials the measurement is repeated after four failed calls "
+            "(nharm = 1 on Time and Psd input, record of 2^18+1 samples to sinad and snr) and must be bit-identical; failures on inputs whose spectrum has an exact two-bin tie at a lobe top "
+            "(component exactly midway between two bins) are reported under the single key C19:thd-lobe-top-tie; replay: seeds 0..100 (0..1000) + -1, INT_MAX, INT_MIN, programs of 3..14 interleaved calls over all 11 entry points, three runs "
             "after different histories (odd number of randn() calls, partially consumed normal pair); randi: 80 (400) ranges of width 1..8 (negative, straddling zero, "
-            "randi(imax)), 4000 draws each, both bounds reached, nothing outside; single-value, INT_MIN..INT_MAX and INT_MAX-3..INT_MAX ranges. "
+            "randi(imax)), 4000 draws each, both bounds reached, nothing outside; single-value, INT_MIN..INT_MAX and INT_MAX-3..INT_MAX ranges; "
+            "stream correspondence of single calls returning 2^16..2^20 values (awgn real/complex, randn(n), rand(n), rand(range,n), randi(n)) followed by scalar draws, through a digest "
+            "(count, FNV-1a over the 64-bit patterns, first, last): 7 programs quick, 47 thorough (all length classes above). "
             "distinct = distinct protocol lines / oracle inputs; non-trivial = all",
     "technique": "Lean 4 proof (exact real algebra for the awgn scale factors; state-passing semantics over an abstract engine for the replay clause; "
                  "order-comparison equivariance + homogeneity of sums/median/DFT for scale invariance) + bit-exact model/implementation correspondence "
